@@ -404,14 +404,14 @@ def main():
             if not found and f.get('hint_lost'):
                 # undecidable between proof brittleness and defect: do not alarm
                 rp = {'property': prop, 'obligation': f['obligation'], 'verifier_message': f['message'],
-                      'inconclusive': 'a proof-hint anchor was lost and no concrete failing input was found'}
+                      'inconclusive': 'a proof hint of this function could not be placed (anchor lost / closure without a contract) and no concrete failing input was found'}
                 write_json(os.path.join(replay_dir, f'{prop}-inconclusive-{i}.json'), rp)
                 n_inconclusive += 1
                 continue
             emit(i, f, found, extra)
             rc = 1
         if rc == 0 and n_inconclusive:
-            return inconclusive('obligation failed after a proof hint lost its anchor; no concrete failing input found')
+            return inconclusive('obligation failed in a function whose proof hints could not all be placed (anchor lost, or a new closure without a contract); no concrete failing input found')
     proof_lost = None
     if sup and rc == 0:
         # the proof of this property no longer goes through, but no obligation that states the property itself failed and the
